@@ -252,6 +252,7 @@ class Run:
         self.actors: dict[int, Actor] = {}
         self.handles: list[Handle] = []
         self.fjit = None
+        self.jarg = None
         self.table: dict[str, list] = {}
         self.shared_options: dict | None = None
         self.shared_callbacks: dict = {}
@@ -879,6 +880,11 @@ class Run:
                 elif handle.jit_ctx_entry != active:
                     self.probe('jit_closure_reused_under_other_config')
                 out = handle.jitfn(y)
+            elif mode == 'jarg':
+                # plain jax.jit with the operator passed as an argument (static fields in the treedef)
+                if self.jarg is None:
+                    self.jarg = jax.jit(lambda op, v: op(v))
+                out = self.jarg(handle.op, y)
             else:
                 if self.fjit is None:
                     self.fjit = equinox.filter_jit(lambda op, v: op(v))
